@@ -243,7 +243,7 @@ func checkModuleArgUsers(r *Run, rule, mod string, allowed []string) {
 	n := 0
 	for _, fn := range P.RepoFns {
 		fn := fn
-		Instrs(fn, func(in ssa.Instruction) {
+		InstrsRaw(fn, func(in ssa.Instruction) {
 			ci, ok := in.(ssa.CallInstruction)
 			if !ok {
 				return
